@@ -229,6 +229,77 @@ def _fmt_extra(v):
 
 # -- chroms / bins tables --------------------------------------------------------
 
+# -- every pair of bin-aligned row / column ranges on one chromosome --------------------------------
+
+@st.composite
+def window_cases(draw):
+    k = draw(st.integers(3, 5))
+    wdt = draw(st.integers(1, 6))
+    symmetric = draw(st.sampled_from([True, True, False]))
+    rows = []
+    for i in range(k):
+        for j in range(k):
+            if (j >= i or not symmetric) and draw(st.integers(0, 3)) != 0:
+                rows.append([i, j, draw(st.integers(1, 99))])
+    return {"part": "windows", "k": k, "w": wdt, "symmetric": symmetric, "rows": rows, "join": draw(st.booleans()),
+            "chunksize": draw(st.sampled_from([None, 1, 3]))}
+
+
+def check_windows(case, ctx: Ctx):
+    """`cooler dump -r R -r2 R2 [--fill-lower]` for ALL pairs of bin-aligned ranges of a chromosome (regions spelled in
+    base pairs), against the model; rows compared as multisets."""
+    from ..coolio import create_from_model
+
+    k, wdt, symmetric, rows = case["k"], case["w"], case["symmetric"], case["rows"]
+    bt = {"names": ["chrA", "chrB"], "edges": [[wdt * t for t in range(k + 1)], [0, wdt]], "kinds": ["fixed", "fixed"], "b": wdt}
+    path = ctx.tmp(".cool")
+    n_eval = n_nt = 0
+    try:
+        call("create", create_from_model, path, bt, rows, symmetric, h5opts={"compression": None})
+        ranges = [(a, b) for a in range(k) for b in range(a + 1, k + 1)]
+        flip = 0
+        for (i0, i1) in ranges:
+            for (j0, j1) in ranges:
+                flip += 1
+                fill = flip % 3 != 0
+                args = ["dump", path, "-r", f"chrA:{i0 * wdt}-{i1 * wdt}", "-r2", f"chrA:{j0 * wdt}-{j1 * wdt}"]
+                if fill:
+                    args.append("--fill-lower")
+                if case["join"]:
+                    args.append("--join")
+                if case["chunksize"]:
+                    args += ["--chunksize", str(case["chunksize"])]
+                rc, text, exc = run_cli(args)
+                check(rc == 0 and exc is None, f"cooler {' '.join(args[2:])} failed: exit {rc} {exc!r}")
+                want = []
+                for i, j, v in rows:
+                    if i0 <= i < i1 and j0 <= j < j1:
+                        want.append((i, j, v))
+                    if fill and symmetric and i != j and i0 <= j < i1 and j0 <= i < j1:
+                        want.append((j, i, v))
+                got = []
+                for ln in text.split("\n"):
+                    if not ln:
+                        continue
+                    f_ = ln.split("\t")
+                    if case["join"]:
+                        check(f_[0] == "chrA" and f_[3] == "chrA", f"dump --join row {ln!r} names another chromosome")
+                        got.append((int(f_[1]) // wdt, int(f_[4]) // wdt, int(f_[6])))
+                    else:
+                        got.append((int(f_[0]), int(f_[1]), int(f_[2])))
+                check(sorted(got) == sorted(want),
+                      lambda: f"cooler {' '.join(args[2:])} (rows bins {i0}..{i1}, columns bins {j0}..{j1}, "
+                              f"{'symmetric-upper' if symmetric else 'square'}) prints {sorted(got)}, the window holds {sorted(want)}")
+                n_eval += 1
+                if fill and symmetric and i0 < j1 and j0 < i1 and (i0, i1) != (j0, j1) and want:
+                    n_nt += 1
+    finally:
+        ctx.clean(path)
+    ctx.record(case, n_nt > 0, ["windows", "windows-sym" if symmetric else "windows-square", f"windows-k={k}"], n_eval=n_eval, n_nontrivial=n_nt)
+    ctx.exhaustive_subdomains["dump: all pairs of bin-aligned (range, range2) on a chromosome of 3-5 bins"] = \
+        ctx.exhaustive_subdomains.get("dump: all pairs of bin-aligned (range, range2) on a chromosome of 3-5 bins", 0) + 1
+
+
 @st.composite
 def table_cases(draw):
     bt = draw(gen.bin_tables(max_chroms=4, max_bins=4, max_width=7, scale=False))
@@ -445,7 +516,7 @@ def check_layout(case, ctx: Ctx):
                                                                  "square" if case["square"] else "sym"])
 
 
-CHECKS = {"dump": check_dump, "table": check_table, "roundtrip": check_roundtrip, "layout": check_layout,
+CHECKS = {"windows": check_windows, "dump": check_dump, "table": check_table, "roundtrip": check_roundtrip, "layout": check_layout,
           "cli": c09.check_cli, "cli_load_c05": lambda case, ctx: c05.check_cli_load(dict(case, part="cli_load"), ctx),
           "tabix_c05": lambda case, ctx: c05.check_tabix(dict(case, part="tabix"), ctx)}
 
@@ -468,6 +539,8 @@ def run(ctx: Ctx):
                      CHECKS["cli_load_c05"], per_shard(ctx, 96 if q else 2000), batch=12):
         return
     if not run_given(ctx, "zoomify-spec", c09.cli_cases(), c09.check_cli, per_shard(ctx, 24 if q else 400), batch=6):
+        return
+    if not run_given(ctx, "windows", window_cases(), check_windows, per_shard(ctx, 24 if q else 600), batch=3):
         return
     # tabix-indexed pairs whose second mate is NOT in the default columns, through `cooler cload tabix -c2 -p2`
     run_given(ctx, "tabix-layout", c05.tabix_cases().map(lambda c: dict(c, part="tabix_c05", bad_pos2=None, via="cli-p2" if c["via"] == "cli-p2" else "cli")),
